@@ -203,6 +203,8 @@ func TestC08(t *testing.T) {
 	o := gen.DefaultHistOpt(limits(), thorough())
 	o.MaxUnits, o.MaxItems, o.MaxRowsEv, o.MaxRows, o.MaxCols, o.MaxTables = 6, 3, 3, 3, 5, 2
 	o.BigBase = false
+	o.Scale = false
+	o.ScaleTx = true
 	o.Kinds = []hist.UnitKind{hist.UTxXID, hist.UTxXID, hist.UTxCommit, hist.UAutoRows, hist.UDDL}
 	o.Col = gen.ColumnOpt{Only: []byte{refenc.TVarchar, refenc.TBlob, refenc.TTimestamp, refenc.TTimestamp2, refenc.TLong, refenc.TString, refenc.TBit, refenc.TNewDecimal, refenc.TGeometry}}
 	rapidCheck(t, func(rt *rapid.T) {
